@@ -1323,3 +1323,45 @@ def rule_R9_component_dispatch(ctx, typer, which):
                                                                           "fan": "'**' (subtree)", "find": "child matching"}[k],
                      construct="Resolver.__glob: no %s step" % k)
     return n
+
+
+def rule_R11_attr_value_truth(ctx, typer):
+    """the value of the path attribute is only ever turned into a string: it is never tested for truth (`x or default`,
+    `if x`, `not x`) - a node whose attribute is 0, '' or an empty container is named by that value like any other"""
+    from .common import straightline_value
+    n = 0
+    for f in [g for g in ctx.p.all_funcs if g.module.relpath == RES]:
+        cfg = typer.cfg_of(f) if not f.is_lambda else None
+
+        def is_attr_read(e, depth=0):
+            if isinstance(e, ast.Call) and isinstance(e.func, ast.Name) and e.func.id == "getattr" and len(e.args) >= 2 \
+                    and not isinstance(e.args[1], ast.Constant):
+                return True
+            if isinstance(e, ast.Name) and cfg is not None and depth < 3:
+                from .common import cfg_nodes_containing
+                for h in cfg_nodes_containing(cfg, e):
+                    v = straightline_value(h, e.id)
+                    if v is not None and is_attr_read(v, depth + 1):
+                        return True
+            return False
+        for node in walk_own(f.node):
+            tests = []
+            if isinstance(node, ast.BoolOp):
+                tests = list(node.values[:-1])
+            elif isinstance(node, (ast.If, ast.While, ast.IfExp)):
+                tests = [node.test]
+            elif isinstance(node, ast.UnaryOp) and isinstance(node.op, ast.Not):
+                tests = [node.operand]
+            elif isinstance(node, ast.comprehension):
+                tests = list(node.ifs)
+            for t in tests:
+                if is_attr_read(t):
+                    n += 1
+                    ctx.viol("R11", f, node, "the path attribute value `%s` is tested for truth: a node whose attribute is 0, '' or "
+                             "empty is treated as if it had none, so its own path no longer resolves to it" % norm(t))
+        for node in walk_own(f.node):
+            if isinstance(node, ast.Call) and isinstance(node.func, ast.Name) and node.func.id == "getattr" and len(node.args) >= 2 \
+                    and not isinstance(node.args[1], ast.Constant):
+                n += 1
+                ctx.inst("R11", f, node, "attribute value read")
+    return n
